@@ -59,6 +59,7 @@ def run(ctx):
         for _ in range(rng.choice([0, 1, 2, 4, 6])):
             h.rand_step()
         dist['base_histories'] += 1
+        h.MAX_LIVE = 60          # nothing is evicted from observation during the fault phase: a refused operation that changed its target must be seen
         nonempty = [g for g in h.live if h.pool[g].fp_num > 0]
         while not nonempty:
             h.op_new(rng.choice(dbgen.KINDS), h.level)
